@@ -67,7 +67,7 @@ pub fn gen(prop: &str, scen: &str, _k: u64, seed: u64, tier: &str) -> Case {
     case.rbufs = random_rbufs(&mut r_ops);
     let writer_role = r_ops.pct(50) || scen == "mt.determ";
     case.set("role", if writer_role { 0 } else { 1 });
-    case.set("stream_kind", r_in.below(6) as i64);
+    case.set("stream_kind", r_in.below(7) as i64);
     if writer_role {
         case.wops = random_wops(&mut r_ops, len, true, 30);
         if case.fmt == "lzma2mt" && r_in.pct(25) {
@@ -123,7 +123,16 @@ pub fn gen(prop: &str, scen: &str, _k: u64, seed: u64, tier: &str) -> Case {
                     _ => case.sink_faults.push(IoFault { at: r_f.below(12), kind: "zero".into(), arg: 0 }),
                 }
             } else {
-                match r_f.below(8) {
+                match r_f.below(10) {
+                    8 | 9 => {
+                        // a size field of a member trailer at an extreme: the MT LZIP reader walks
+                        // the file backwards by these fields and has to come to an end
+                        case.fmt = "lzipmt".into();
+                        case.set("trailer_member", r_f.below(12) as i64);
+                        case.set("trailer_field", r_f.below(2) as i64);
+                        case.set("trailer_value", *r_f.pick(&[0i64, 0, 1, 19, 20, 26, i64::MAX, -1]));
+                        case.set("trailer_delta", *r_f.pick(&[0i64, 0, 0, 1, -1]));
+                    }
                     0 => case.storage.push(StFault { kind: "trunc".into(), a: 0, ..Default::default() }),
                     1 => case.storage.push(StFault { kind: "drop_last".into(), a: 1, ..Default::default() }),
                     2 => case.storage.push(StFault { kind: "trunc_frac".into(), a: r_f.below(1000), ..Default::default() }),
@@ -220,6 +229,30 @@ pub fn build_stream(case: &Case, data: &[u8]) -> Result<Vec<u8>, String> {
                 let mut c = st.clone();
                 c.opt.unit = None;
                 codec::encode_vec(&c, data).map_err(|e| format!("{}:{}", e.0, e.1))
+            }
+            6 => {
+                // units that reset the coder state but NOT the dictionary (control 0xC0): each
+                // piece after the first comes from a fresh writer primed with the data in front
+                // of it as preset dictionary, so its matches reach back into the previous pieces
+                let mut out = Vec::new();
+                let mut c = st.clone();
+                c.opt.unit = None;
+                c.opt.preset = None;
+                let dict = c.opt.dict as usize;
+                let mut done = 0usize;
+                for piece in data.chunks(unit.max(1)) {
+                    let mut o = codec::lzma2_options(&c.opt);
+                    if done > 0 {
+                        o.lzma_options.preset_dict = Some(data[done.saturating_sub(dict)..done].to_vec());
+                    }
+                    let mut w = lz::LZMA2Writer::new(Vec::new(), o);
+                    w.write_all(piece).map_err(|e| e.to_string())?;
+                    w.flush().map_err(|e| e.to_string())?;
+                    out.extend_from_slice(&w.into_inner());
+                    done += piece.len();
+                }
+                out.push(0);
+                Ok(out)
             }
             _ => {
                 // independent units: fresh writer per unit, flush, no terminator; one 0x00 at the end
